@@ -30,7 +30,7 @@ ASSUMPTIONS = [
 CASE_TIMEOUT = 900
 MAX_JOBS = 16
 
-VARIANTS = ["databook", "databook_years", "databook_const_and_years", "databook_zero_constant", "transfer", "interaction", "spend", "unitcost", "outcome_interaction", "interaction_outcome_fullcov", "zero", "none"]
+VARIANTS = ["databook", "databook_years", "databook_const_and_years", "databook_zero_constant", "transfer", "interaction", "spend", "unitcost", "outcome_interaction", "interaction_outcome_fullcov", "zero", "zero_saved_state", "none"]
 
 
 def make_world(variant):
@@ -52,7 +52,7 @@ def make_world(variant):
         spec["progs"]["instr"]["coverage"] = {"P1": 4.0, "P2": 4.0}  # per year; one-off programs: x dt = 1.0 per step
     for p in spec["pars"]:
         if p["name"] == "vr":
-            p["sigma"] = {"databook": 0.05, "zero": 0.0, "databook_years": 0.05, "databook_const_and_years": 0.05}.get(variant)
+            p["sigma"] = {"databook": 0.05, "zero": 0.0, "zero_saved_state": 0.0, "databook_years": 0.05, "databook_const_and_years": 0.05}.get(variant)
             if variant in ("databook_years", "databook_const_and_years"):
                 p["val"] = {"t": [2000.0, 2002.0], "v": [0.3, 0.2]}  # the only uncertain row has year-specific values
     if variant == "databook_zero_constant":
@@ -65,7 +65,7 @@ def make_world(variant):
     if variant == "outcome_interaction":
         spec["progs"]["covouts"][0]["sigma"] = 0.05
         spec["progs"]["covouts"][0]["imp"] = "P1+P2=0.95"
-    if variant == "zero":
+    if variant in ("zero", "zero_saved_state"):
         spec["progs"]["covouts"][0]["imp"] = "P1+P2=0.95"  # valid program book with explicit interaction outcomes and zero uncertainty
     w = World(spec)
     if variant == "databook_const_and_years":
@@ -78,6 +78,12 @@ def make_world(variant):
     if variant == "none":
         for cv in w.progset.covouts.values():
             cv.sigma = None
+    if variant == "zero_saved_state":
+        # the parameter set carries the saved state of an earlier run and the project starts from that year
+        r = w.P.run_sim(w.parset, w.progset, w.instr, store_results=False)
+        y = float(r.model.t[4])
+        w.parset.set_initialization(r, y)
+        w.P.settings.update_time_vector(start=y)
     return w
 
 
@@ -160,7 +166,7 @@ def one_execution(w, entry, N, W, sched):
 def run_virtual(case):
     variant, entry, N, W = case["variant"], case["entry"], case["N"], case["W"]
     w = make_world(variant)
-    uncertain = variant not in ("zero", "none")
+    uncertain = variant not in ("zero", "zero_saved_state", "none")
     vs = []
     h0 = (snap_hash(w.parset), snap_hash(w.progset), snap_hash(w.instr))
     if not uncertain:
